@@ -24,6 +24,8 @@ def plan(tier, seed):
     n = 1500 if tier == "quick" else 30000
     specs = [{"seed": seed, "chunk": i, "n": 50, "kind": "gen"} for i in range(n // 50)]
     specs.append({"seed": seed, "chunk": 0, "n": 40 if tier == "quick" else 400, "kind": "repeat"})
+    for i in range(2 if tier == "quick" else 20):
+        specs.append({"seed": seed, "chunk": i, "n": 50, "kind": "redef"})
     return specs
 
 
@@ -40,6 +42,32 @@ def sources(spec):
             else:
                 files, main = layouts.split_lines(lines, r, max_files=3)
             out.append((files, main, "gen"))
+    elif spec["kind"] == "redef":
+        # a program name defined two or three times: same number of variables, another order of first mention
+        for k in range(spec["n"]):
+            names = ["a", "b", "c", "r", "s"]
+            ar = r.randint(1, 3)
+            lines = []
+            ndef = r.randint(2, 3)
+            for d in range(ndef):
+                ps = r.sample(names[:3], ar)
+                loc = r.sample(names[3:], 2)
+                lines.append("PROGRAM f IN " + " , ".join(ps) + (" OUT " + r.choice(ps + loc) if r.random() < 0.5 else "") + " DO")
+                body = ["%s := %s + %d ;" % (loc[0], ps[0], d), "%s := %s ;" % (loc[1], ps[-1]), "x0 := %s + 1" % loc[0]]
+                lines += body
+                lines.append("END")
+                if r.random() < 0.5:
+                    lines.append("PROGRAM g%d IN q DO" % d)
+                    lines.append("x0 := RUN f WITH " + " , ".join(["q"] * ar) + " END")
+                    lines.append("END")
+            lines.append("x := RUN f WITH " + " , ".join(str(r.randint(1, 9)) for _ in range(ar)) + " END ;")
+            lines.append("y := x")
+            text = "\n".join(lines)
+            if r.random() < 0.5:
+                cut = text.index("PROGRAM f", 10)
+                out.append(({"main": 'include "lib"\n' + text[cut:], "lib": text[:cut].rstrip("\n")}, "main", "redef"))
+            else:
+                out.append(({"main": text}, "main", "redef"))
     else:
         for k in range(spec["n"]):
             nl = 1 + k % 3
